@@ -294,3 +294,71 @@ def deep_calls(prog, e, suffix, depth=3):
                         out.append((c, inner[0][1]))
                     break
     return out
+
+
+def int_value(e):
+    """integer value of an expression that is a literal, a constant item, or either behind value-preserving
+    conversions (casts, From/Into, references); None otherwise"""
+    from . import flow as _f
+    for _ in range(12):
+        e = _f.strip(e)
+        if e[0] == "cast":
+            e = e[2]
+            continue
+        if e[0] == "phi":
+            vs = set(int_value(x) for x in e[1])
+            return vs.pop() if len(vs) == 1 else None
+        break
+    if e[0] == "const" and isinstance(e[2], int) and not isinstance(e[2], bool):
+        return e[2]
+    if e[0] == "constitem" and isinstance(e[2], int) and not isinstance(e[2], bool):
+        return e[2]
+    return None
+
+
+def binop_consts(ctx, body):
+    """set of (binary operator, integer constant operand) over the non-diagnostic statements of a body; constants
+    are resolved through named constants and value-preserving conversions"""
+    an = ctx.an(body)
+    out = set()
+    for blk in body.blocks:
+        if blk.cleanup:
+            continue
+        for i, s in enumerate(blk.stmts):
+            if s.kind == "assign" and s.rv.k == "binop" and not body.is_noise(s):
+                for o in s.rv.ops:
+                    v = o.const_int()
+                    if v is None:
+                        v = int_value(an.operand_expr(o, (blk.idx, i), 0))
+                    if v is not None:
+                        out.add((s.rv.j["op"], v))
+    return out
+
+
+def closure_effects(ctx, body, names):
+    """calls made on behalf of `body` by a closure it hands to another call (`iter.for_each(|x| c.f(x))`):
+    [(bb, term, argi, closure_body, ibb, iterm, recv_expr)] — bb/term is the call in `body` receiving the closure as
+    argument argi; ibb/iterm the call to one of `names` inside the closure; recv_expr the value captured for the
+    closure variable that is the inner call's first argument (None if the receiver is not a captured variable)."""
+    from . import flow as _f
+    an = ctx.an(body)
+    out = []
+    for bb, t in body.calls():
+        if body.is_noise(t):
+            continue
+        for ai in range(len(t.args)):
+            e = _f.strip(arg(an, bb, t, ai))
+            if e[0] != "agg" or not e[1].startswith("closure:"):
+                continue
+            cb = ctx.prog.bodies.get(e[1].split(":", 1)[1])
+            if cb is None:
+                continue
+            can = ctx.an(cb)
+            caps = dict(e[2])
+            for ibb, it in calls(cb, names):
+                r = _f.strip(arg(can, ibb, it, 0))
+                recv = None
+                if r[0] == "field" and _f.strip(r[1])[0] in ("env", "param"):
+                    recv = caps.get(r[2])
+                out.append((bb, t, ai, cb, ibb, it, recv))
+    return out
